@@ -55,6 +55,26 @@ impl<'a> Iterator for Chunky<'a> {
     }
 }
 
+/// A cloneable iterator that is NOT fused: after its first `None` it starts again from the beginning (used for a diagnostic
+/// only: the unchanged crate polls after `None` in one corner, so non-fused iterators are outside "well-behaved").
+#[derive(Clone)]
+struct Rewinding<'a> {
+    data: &'a [u8],
+    pos: usize,
+}
+impl<'a> Iterator for Rewinding<'a> {
+    type Item = &'a u8;
+    fn next(&mut self) -> Option<&'a u8> {
+        if self.pos < self.data.len() {
+            self.pos += 1;
+            Some(&self.data[self.pos - 1])
+        } else {
+            self.pos = 0;
+            None
+        }
+    }
+}
+
 fn chunked(rng: &Rng, b: &[u8]) -> Vec<Vec<u8>> {
     let mut out = Vec::new();
     let mut i = 0;
@@ -287,7 +307,7 @@ fn c16_shapes(ctx: &mut Ctx, rng: &Rng, fmt: Fmt, c: &Case, lean: bool) -> u64 {
     };
     let (int, frac, e) = (&c.int[..], &c.frac[..], c.exp);
     // (a) iterator shapes
-    let all: Vec<u64> = if lean { vec![rng.below(10)] } else { (0..10).collect() };
+    let all: Vec<u64> = if lean { vec![rng.below(11)] } else { (0..11).collect() };
     for shape in all {
         sink::reset();
         match shape {
@@ -393,6 +413,31 @@ fn c16_shapes(ctx: &mut Ctx, rng: &Rng, fmt: Fmt, c: &Case, lean: bool) -> u64 {
                     let r = util::catch(|| parse_iters(fmt, sb[off..off + int.len()].iter(), sb[64 + off2..64 + off2 + frac.len()].iter(), e));
                     check(ctx, "stack_buffer", r, Some(sink::path()));
                 }
+            }
+            7 => {
+                // DIAGNOSTIC ONLY, never a verdict. Iterators that are not fused: std's map_while over the whole literal
+                // (integer '.' fraction 'e' ...: it stops at the first non-digit and would go on with the following digits if
+                // polled again), scan, and a cursor that rewinds after None. The unchanged crate itself polls the fraction
+                // iterator again after None (parse_number: an all-zero fraction of >= 20 digits with an empty integer part), so
+                // "well-behaved" has to mean fused; what non-fused iterators do is recorded, not judged.
+                let mut text = int.to_vec();
+                text.push(b'.');
+                text.extend_from_slice(frac);
+                text.extend_from_slice(b"e77");
+                let ftext = &text[int.len() + 1..];
+                let mut diag = |ctx: &mut Ctx, name: &str, r: Result<u64, String>| {
+                    ctx.rep.evals += 1;
+                    ctx.rep.count(&format!("diag.{}", name));
+                    if r != Ok(want) {
+                        ctx.rep.count(&format!("diag.{}.differs_from_slice_iterators", name));
+                    }
+                };
+                let r = util::catch(|| parse_iters(fmt, text.iter().map_while(|c| if c.is_ascii_digit() { Some(c) } else { None }), ftext.iter().map_while(|c| if c.is_ascii_digit() { Some(c) } else { None }), e));
+                diag(ctx, "nonfused_map_while_over_literal", r);
+                let r = util::catch(|| parse_iters(fmt, Rewinding { data: int, pos: 0 }, Rewinding { data: frac, pos: 0 }, e));
+                diag(ctx, "nonfused_rewinding_cursor", r);
+                let r = util::catch(|| parse_iters(fmt, text.iter().scan((), |_, c| if c.is_ascii_digit() { Some(c) } else { None }), Rewinding { data: frac, pos: 0 }, e));
+                diag(ctx, "nonfused_scan_over_literal", r);
             }
             8 => {
                 // chains whose size_hint has a non-zero but inexact lower bound: an exact piece (slice) chained
